@@ -295,6 +295,7 @@ def build_circle_region(case):
            SAME region, with a sky_within query in between: the region is a long-lived object)"""
     from AegeanTools.regions import Region
     reg = Region(maxdepth=case['maxdepth'])
+    record_add_pixels(reg)
     cs = case['circles']
     ras, decs, rs = [c[0] for c in cs], [c[1] for c in cs], [c[2] for c in cs]
     form = case['form']
@@ -320,8 +321,19 @@ def build_circle_region(case):
             reg.add_circles(list(ras), np.array(decs), tuple(rs), depth=case['depth'])
         else:
             reg.add_circles(ras, decs, rs, depth=case['depth'])
-        calls = [c for c in spy.calls if c[0] != 'ang2pix']
+        calls = [c for c in spy.calls if c[0] != 'ang2pix'] + [('add_pixels', dict(depth=d)) for d in reg._c09_insert_depths]
     return reg, calls
+
+
+def record_add_pixels(reg):
+    """record the depth argument of every add_pixels call on this region (instance-level wrapper)"""
+    reg._c09_insert_depths = []
+    orig = reg.add_pixels
+
+    def add_pixels(pix, depth):
+        reg._c09_insert_depths.append(depth)
+        return orig(pix, depth)
+    reg.add_pixels = add_pixels
 
 
 class ArgumentMutated(Exception):
@@ -331,9 +343,10 @@ class ArgumentMutated(Exception):
 def build_poly_region(case):
     from AegeanTools.regions import Region
     reg = Region(maxdepth=case['maxdepth'])
+    record_add_pixels(reg)
     with Spied() as spy:
         reg.add_poly([list(p) for p in case['positions']], depth=case['depth'])
-        calls = list(spy.calls)
+        calls = list(spy.calls) + [('add_pixels', dict(depth=d)) for d in reg._c09_insert_depths]
     return reg, calls
 
 
@@ -529,6 +542,12 @@ def run_circle_case(ctx, case, pts, spec_only=False):
         dcalls = [a for n, a in calls if n == 'query_disc']
         if len(dcalls) != len(cs):
             ctx.fail('corr', case, f'add_circles made {len(dcalls)} query_disc calls for {len(cs)} circles', dict(sig_base, what='handoff-disc-count'))
+        ins = [a['depth'] for n, a in calls if n == 'add_pixels']
+        # only what the theorems use: every insertion happens at the model's depth (how many add_pixels calls carry the
+        # pixels — one per circle or one for all — is left free)
+        if not ins or set(ins) != {pm['depth'] for pm in parsed}:
+            ctx.fail('corr', case, f'add_pixels received depths {ins}; regenerated model: {sorted({pm["depth"] for pm in parsed})}',
+                     dict(sig_base, what='handoff-add_pixels'))
         for a, pm in zip(dcalls, parsed):
             ok = (int(a['nside']) == pm['nside'] and bool(a['inclusive']) == pm['inclusive'] and bool(a['nest']) == pm['nest']
                   and int(a['fact']) == pm['fact'] and a.get('buff') is None
@@ -767,6 +786,9 @@ def run_poly_case(ctx, case, pts, spec_only=False):
             a = pc[0]
             ok = (int(a['nside']) == nside and bool(a['inclusive']) == incl and bool(a['nest']) == nest and int(a['fact']) == fact
                   and a.get('buff') is None and np.shape(a['vertices']) == verts.shape and args_close(a['vertices'], verts, 1e-14))
+        ins = [a['depth'] for n, a in calls if n == 'add_pixels']
+        if not ins or set(ins) != {depth}:
+            ctx.fail('corr', case, f'add_pixels received depths {ins}; regenerated model: {[depth]}', dict(sig_base, what='handoff-add_pixels'))
         if not ok:
             ctx.fail('corr', case, f'query_polygon calls {[(int(a["nside"]), bool(a["inclusive"]), bool(a["nest"]), int(a["fact"]), np.shape(a["vertices"])) for a in pc]}; '
                      f'model nside={nside} inclusive={incl} nest={nest} fact={fact} vertices={verts.tolist()}', dict(sig_base, what='handoff-query_polygon'))
@@ -850,6 +872,11 @@ def conversion_checks(ctx, n):
                  dict(what='raises', stage=stage, error=type(e).__name__))
         return
     lv = ctx.driver.batch([f"s2v {hexes(a, d)}" for a, d in pos])
+    la = ctx.driver.batch([f"s2a {hexes(a, d)}" for a, d in pos])
+    for (a, d), tp, l in zip(pos, ang, la):
+        mt, mp = parse_floats(l.split())
+        if not (common.close(tp[0], mt, rel=1e-15, abs_=1e-16) and common.close(tp[1], mp, rel=1e-15, abs_=0.0)):
+            ctx.fail('corr', dict(kind='sky2ang', ra=a, dec=d), f'Region.sky2ang={tp.tolist()} regenerated model={[mt, mp]}', dict(what='sky2ang-model'))
     notes = {}
     for (a, d), v, tp, l in zip(pos, vec, ang, lv):
         cls = 'pole' if abs(d) == HALF_PI else ('ra-boundary' if a in (0.0, below) else 'generic')
